@@ -27,7 +27,7 @@ type capLogger struct {
 	lines []string
 }
 
-// LogHook, when set, is called synchronously with every info/warn/error line the library logs: a
+// LogHook, when set, is called synchronously with every debug/info/warn/error line the library logs: a
 // harness can act exactly at the point of the library's execution where that line is written.
 var LogHook func(line string)
 
@@ -50,7 +50,12 @@ func (c *capLogger) add(level, m string, a ...interface{}) {
 	}
 }
 func (c *capLogger) Trace(m string, a ...interface{}) {}
-func (c *capLogger) Debug(m string, a ...interface{}) {}
+func (c *capLogger) Debug(m string, a ...interface{}) {
+	// not captured; a harness that placed a hook may act at debug lines too
+	if h := LogHook; h != nil {
+		h("debug: " + fmt.Sprintf(m, a...))
+	}
+}
 func (c *capLogger) Info(m string, a ...interface{})  { c.add("info", m, a...) }
 func (c *capLogger) Warn(m string, a ...interface{})  { c.add("warn", m, a...) }
 func (c *capLogger) Error(m string, a ...interface{}) { c.add("error", m, a...) }
